@@ -79,6 +79,11 @@ class C09(Spec):
         for perms2 in ("r k*|w zz", "w k*,zz|r zz", "rw q*"):
             for pv in ("get k1", "set k1 n", "get zz", "set zz n", "increment k1", "remove zz"):
                 cases.append(base_setup("r nomatch") + CREDS["usertoken"] + [f"C 2 {pv}", f"C 1 set-permissions u {perms2}", f"C 2 {pv}", "C 1 keys"])
+        # what the administrator does to the user's records while the user's session is open
+        for mid in ("remove $$user_u", "remove $$permission_$u", "set $$user_u other", "create-user u other", "create-user u2 x", "set-permissions u2 rwix *"):
+            for perms0 in ("r k*", "rwix zz"):
+                for pv in ("get k1", "set k1 n", "get zz", "set zz n", "increment k1", "remove zz", "keys", "get $$token"):
+                    cases.append(base_setup(perms0) + CREDS["usertoken"] + [f"C 2 {pv}", f"C 1 {mid}", f"C 2 {pv}", "C 2 get zz", "C 1 keys"])
         # session-order cases: every short sequence of login attempts, then a probe outside / inside the user's list
         logins = ["use-db t u upw", "use-db t bad", "use-db t tok", "use-db nodb tok", "use-db t u bad", "use-db t x y z"]
         for n in (2, 3):
@@ -109,7 +114,8 @@ class C09(Spec):
                 fails.append(Failure("panic", f"{inp}: {r}")); break
             word = cmd.strip("\n").rstrip(";").split(" ")[0]
             if sid == "1":
-                if word == "set-permissions" and r == "R ok": perms = cmd.split(" ", 2)[2]
+                if word == "set-permissions" and r == "R ok" and cmd.split(" ")[1] == "u": perms = cmd.split(" ", 2)[2]
+                if cmd.strip() == "remove $$permission_$u" and r == "R ok": perms = None     # a user without a list reaches no value
                 continue
             is_err = r.startswith("R error") or r.startswith("R verr")
             prev_dump = steps[i - 1][2] if i > 0 else []
